@@ -532,49 +532,62 @@ func (p *pep440Extension) compare(e extension) int {
 		return 0
 	}
 
-	// We have the same numbers. We now compare attachments. Their order is:
-	//	devN aN bN rcN <empty> postN
-	// and within each item, ordered by N. Also, a dev can appear along with
-	// any other. If one version has a higher rank than the other, that determines
-	// their ordering.
-	pRank := pExt.rank()
-	qRank := qExt.rank()
-	if pRank != qRank {
-		return sgn(pRank, qRank)
+	// We have the same numbers. The remaining segments compare as PEP 440
+	// prescribes (and as pip's packaging library implements it): by
+	// pre-release, then post-release, then dev-release, then local version,
+	// where a missing segment stands for a fixed extreme:
+	//   - no pre-release sorts after every pre-release, except that a plain
+	//     dev release (1.0.dev1) sorts before all pre-releases of 1.0;
+	//   - no post-release sorts before every post-release;
+	//   - no dev-release sorts after every dev-release;
+	//   - no local version sorts before every local version.
+	if s := sgn(pExt.preKey(), qExt.preKey()); s != 0 {
+		return s
 	}
-
-	// Same rank, so now we must look at the contents of the extension.
-	switch pRank {
-	case pep440Alpha, pep440Beta, pep440Prerelease:
-		if s := sgn(pExt.preNum, qExt.preNum); s != 0 {
-			return s
-		}
-		fallthrough
-	case pep440Local:
-		if s := pep44CompareLocal(pExt.local, qExt.local); s != 0 {
-			return s
-		}
-		fallthrough
-	case pep440Post:
-		if s := sgn(pExt.postNum, qExt.postNum); s != 0 {
-			return s
-		}
+	if s := sgn(pExt.preNum, qExt.preNum); s != 0 && pExt.pre != "" {
+		return s
 	}
-
-	// Dev can attach to anything (although we've never seen one on a post).
-	if pExt.devPresent || qExt.devPresent {
-		if pExt.devPresent != qExt.devPresent {
-			if pExt.devPresent {
-				return -1 // Dev is before pre, empty, or post.
-			}
-			return 1
+	if pExt.postPresent != qExt.postPresent {
+		if qExt.postPresent {
+			return -1
 		}
-		if s := sgn(pExt.devNum, qExt.devNum); s != 0 {
-			return s
-		}
+		return 1
 	}
+	if s := sgn(pExt.postNum, qExt.postNum); s != 0 {
+		return s
+	}
+	if pExt.devPresent != qExt.devPresent {
+		if pExt.devPresent {
+			return -1
+		}
+		return 1
+	}
+	if s := sgn(pExt.devNum, qExt.devNum); s != 0 {
+		return s
+	}
+	if (pExt.local == "") != (qExt.local == "") {
+		if pExt.local == "" {
+			return -1
+		}
+		return 1
+	}
+	return pep44CompareLocal(pExt.local, qExt.local)
+}
 
-	return 0
+// preKey orders the pre-release kinds: a plain dev release first, then alpha,
+// beta, release candidate, and finally the absence of a pre-release.
+func (p *pep440) preKey() int {
+	switch {
+	case p.pre == "a":
+		return pep440Alpha
+	case p.pre == "b":
+		return pep440Beta
+	case p.pre == "rc":
+		return pep440Prerelease
+	case p.devPresent && !p.postPresent:
+		return pep440Dev
+	}
+	return pep440Empty
 }
 
 // pep440CompareLocal compares the local strings elementwise.
@@ -584,7 +597,10 @@ func pep44CompareLocal(pl, ql string) int {
 		return 0
 	}
 	// Numbers dominate strings, and are evaluated numerically.
-	// Strings are ASCII-only and compared case-insensitively.
+	// Strings are ASCII-only and compared case-insensitively; "-" and "_"
+	// separate elements just as "." does.
+	norm := strings.NewReplacer("-", ".", "_", ".")
+	pl, ql = norm.Replace(strings.ToLower(pl)), norm.Replace(strings.ToLower(ql))
 	pn := strings.Count(pl, ".") + 1
 	qn := strings.Count(ql, ".") + 1
 	n := pn
@@ -592,7 +608,7 @@ func pep44CompareLocal(pl, ql string) int {
 		n = qn
 	}
 	var pElem, qElem string
-	for i := 0; i < pn; i++ {
+	for i := 0; i < n; i++ {
 		pElem, pl = pep440LocalElem(pl)
 		qElem, ql = pep440LocalElem(ql)
 		if s := p440compareLocalElem(pElem, qElem); s != 0 {
